@@ -7,6 +7,7 @@ import XV.Driver.Dt
 import XV.Driver.Identity
 import XV.Driver.ContentModel
 import XV.Driver.DtdValid
+import XV.Driver.Trace
 open XV.Driver
 
 def main (args : List String) : IO UInt32 := do
@@ -25,5 +26,7 @@ def main (args : List String) : IO UInt32 := do
   | ["dt"] => lineLoop stdin stdout XV.Driver.Dt.handle; return 0
   | ["dtspec"] => lineLoop stdin stdout XV.Driver.Dt.handleSpec; return 0
   | ["ic"] => lineLoop stdin stdout XV.Driver.Identity.handle; return 0
+  | ["trace"] => lineLoop stdin stdout XV.Driver.Trace.handle; return 0
+  | ["pool"] => lineLoop stdin stdout XV.Driver.Trace.handlePool; return 0
   | ["utf8spec"] => lineLoop stdin stdout XV.Driver.Utf8.handleSpec; return 0
   | _ => IO.eprintln "usage: xvdriver <area>"; return 2
